@@ -213,3 +213,15 @@ claim("C13",
            "independent tangency solve finds a ball; exact rational miniball arithmetic does not fit TLC's 32-bit integers.",
       technique="TLA+ model checking (TLC) of exact existence predicates and centred balls + spec-to-code replay + definitional certificates",
       design_ref="DESIGN.md 5 C13")
+
+
+claim("C14",
+      text="For every convex polygon state of spec/Polygon2.tla TLC computes, in integers scaled by the centroid's denominator, the "
+           "exact ray parameter from the exact centroid through the unique exit edge along integer directions (towards every "
+           "vertex, along axes and diagonals, generic ones); replayed into ConvexPolygon.distance_to_surface with theta = atan2(u) "
+           "+ 2 pi k (k = -2..2) as one array, under in-plane rational rotations/offsets/scales 1e-3..1e3; Circle/Ellipse against "
+           "the radial term of spec/Curved.tla; ConvexSpheropolygon by the defining identity on its output (the returned point "
+           "lies at distance r from the exact core polygon) for radii 0..10 core sizes.",
+      note="Directions are rational (dense, not exhaustive). Known finding spheropolygon-irregular-core (rewrite needed).",
+      technique="TLA+ model checking (TLC) of exact ray/edge hits + spec-to-code replay + definitional identity on outputs",
+      design_ref="DESIGN.md 5 C14")
